@@ -142,10 +142,12 @@ func parseSigPacket(b []byte) (sp sigParts, err error) {
 			n, off = len(b)-1, 1
 		}
 	}
-	if tag != 2 || n < 0 || off+n > len(b) {
+	if tag != 2 || n < 0 || off > len(b) {
 		return sp, errUndecidable
 	}
-	body := b[off : off+n]
+	// A declared length beyond the available bytes cannot add content: no reader
+	// can deliver more than what is there.
+	body := b[off:min(off+n, len(b))]
 	if len(body) < 6 || body[0] != 4 {
 		return sp, errUndecidable
 	}
